@@ -14,9 +14,8 @@ var sweepFailed bool
 // TestExh_C16 enumerates the byte offsets completely: for each direction and every k from 0
 // to the size of a whole healthy handshake (connect, register, configure, synchronize) plus
 // two, the history [Start with the connection cut after k bytes] followed by the epilogue
-// every case gets (Wait returns, notifications, a fresh healthy Start, a probe, Stop). In
-// the quick tier every offset of the window up to the end of Configure is taken and every
-// fourth one behind it.
+// every case gets (Wait returns, notifications, a fresh healthy Start, a probe, Stop). Both
+// tiers take every offset.
 func TestExh_C16(t *testing.T) {
 	if i, _ := ev.Shard(); i != 0 {
 		t.Skip("sweep runs in shard 0 only")
@@ -47,7 +46,6 @@ func TestExh_C16(t *testing.T) {
 			t.Fatalf("C16 sweep: %s", o.Fail)
 		}
 	}
-	atCfg := [2]int64{h.s2rAtCfg, h.r2sAtCfg}
 	for d := 0; d < 2; d++ {
 		if d == r2s && ev.Known(knownD8) {
 			complete = false
@@ -57,10 +55,6 @@ func TestExh_C16(t *testing.T) {
 				continue
 			}
 			if ev.Known(knownD10) {
-				complete = false
-				continue
-			}
-			if !ev.Thorough() && k > atCfg[d]+16 && k%4 != 0 {
 				complete = false
 				continue
 			}
